@@ -3,7 +3,10 @@
   ONLY property theorems and non-vacuity examples live here.
 -/
 import XsVerif.Model.Access
+import XsVerif.Model.AccessTrace
 import XsVerif.Lemmas.Access
+import XsVerif.Lemmas.AccessCoding
+import XsVerif.Lemmas.AccessTrace
 import XsVerif.Generated.C12
 
 namespace XsVerif.Props.C12
@@ -226,6 +229,318 @@ theorem resolve_local_only_files (a : Allow) (ha : a = .loc ∨ a = .sandbox) (c
     | remote s n j => rcases ha with rfl | rfl <;> simp [hn] at h
     | outOfScope => simp [hn] at h
     | error => simp [hn] at h
+
+
+/-! ## the coding assumptions behind `sandbox_confines`, as theorems -/
+
+/-- `unquote_to_bytes(quote_from_bytes(p)) == p` for every byte string `p`: the decoded path that
+    `from_uri` recovers from a rendered URL is the path that was rendered. -/
+theorem unquote_quote (p : Bytes) : unquote (quote p) = p := XsVerif.Access.unquote_quote p
+
+example : quote [47, 97, 32, 37, 255] = [47, 97, 37, 50, 48, 37, 50, 53, 37, 70, 70] ∧
+    unquote [47, 97, 37, 50, 48, 37, 50, 53, 37, 70, 70] = [47, 97, 32, 37, 255] := by decide
+
+/-- `posixpath.normpath` is idempotent, for every byte string. -/
+theorem normpath_idempotent (p : Bytes) : normpath (normpath p) = normpath p :=
+  XsVerif.Access.normpath_idempotent p
+
+/-- `posixpath.normpath` leaves no `.` and no empty segment, and `..` only as the leading block of a
+    relative path: the result is "." or its components are `..`* followed by real names (none at all
+    in front when the path is absolute). -/
+theorem normpath_no_dot_segments (p : Bytes) :
+    normpath p = dot ∨ ∃ k cl, comps (normpath p) = List.replicate k dotdot ++ cl ∧
+      (∀ c ∈ cl, CleanComp c) ∧ (isAbsPath p = true → k = 0) :=
+  XsVerif.Access.normpath_no_dot_segments p
+
+example : normpath [47, 97, 47, 46, 46, 47, 46, 47, 47, 98] = [47, 98] ∧
+    normpath [46, 46, 47, 97, 47, 46, 46, 47, 46, 46] = [46, 46, 47, 46, 46] := by decide
+
+/-- `normalize_url` is idempotent on its local results, whatever base the second call is given
+    (locations= and location hints are normalised when collected and again when loaded; a
+    resource URL is re-normalised by `match_location` and by the sandbox self-derivation):
+    the second call returns the same URL and decoded path, or the form is outside the model
+    (a path starting with two slashes, which `ntpath.splitdrive` takes for a UNC drive). -/
+theorem normalizeUrl_idempotent (cwd : Bytes) (b b' : Option Bytes) (loc p u : Bytes)
+    (hcwd : isAbsPath cwd = true) (h : normalizeUrl cwd b loc = .file p u) :
+    normalizeUrl cwd b' u = .file p u ∨ normalizeUrl cwd b' u = .outOfScope :=
+  XsVerif.Access.normalizeUrl_idempotent cwd b b' loc p u hcwd h
+
+/-! ## nested loads: the trace model (Model/AccessTrace.lean) -/
+
+/-- simultaneous induction over a load tree and its list of references -/
+theorem load_forall (a : Allow) (cwd : Bytes) (m : Mapper) (readable : Norm → Bool)
+    (P : Event → Prop) (Inv : Option Bytes → Prop)
+    (hstep : ∀ b loc, Inv b →
+      let r := resolveWith a cwd b (applyMapper m (strip loc))
+      (r.decision = some .ok → P (.opened b loc r.norm) ∧
+        (readable r.norm = true → ∀ cb, childBase cwd b (applyMapper m (strip loc)) r.norm = some cb → Inv (some cb))) ∧
+      (∀ d, r.decision = some d → d ≠ .ok → P (.blocked b loc d)) ∧ P (.undecided b loc))
+    (t : LoadTree) : ∀ b, Inv b → ∀ e ∈ (loadNode a cwd m readable b t).1, P e := by
+  refine LoadTree.rec
+    (motive_1 := fun t => ∀ b, Inv b → ∀ e ∈ (loadNode a cwd m readable b t).1, P e)
+    (motive_2 := fun ts => ∀ b, Inv b → ∀ e ∈ (loadList a cwd m readable b ts).1, P e)
+    ?_ ?_ ?_ t
+  · intro loc strict refs ih b hb e he
+    have hs := hstep b (sourceOf cwd b strict loc) hb
+    simp only at hs
+    obtain ⟨hok, hbl, hun⟩ := hs
+    unfold loadNode at he
+    simp only at he
+    split at he
+    · rename_i hdec
+      obtain ⟨hP, hch⟩ := hok hdec
+      split at he
+      · rename_i hr
+        split at he
+        · rename_i cb hcb
+          simp only [List.mem_cons] at he
+          rcases he with rfl | he
+          · exact hP
+          · exact ih (some cb) (hch hr cb hcb) e he
+        · simp only [List.mem_cons, List.not_mem_nil, or_false] at he
+          rcases he with rfl | rfl
+          · exact hP
+          · exact hun
+      · simp only [List.mem_cons, List.not_mem_nil, or_false] at he
+        subst he; exact hP
+    · rename_i d hne hdec
+      simp only [List.mem_cons, List.not_mem_nil, or_false] at he
+      subst he
+      exact hbl d hdec (fun e => hne e)
+    · simp only [List.mem_cons, List.not_mem_nil, or_false] at he
+      subst he; exact hun
+  · intro b _ e he
+    simp [loadList] at he
+  · intro t ts iht ihts b hb e he
+    unfold loadList at he
+    simp only at he
+    split at he
+    · exact iht b hb e he
+    · simp only [List.mem_append] at he
+      rcases he with he | he
+      · exact iht b hb e he
+      · exact ihts b hb e he
+
+
+theorem resolveWith_norm (a : Allow) (cwd : Bytes) (b : Option Bytes) (loc : Bytes) :
+    (resolveWith a cwd b loc).norm = normalizeUrl cwd b loc := by
+  unfold resolveWith
+  simp only
+  split
+  · split <;> simp_all
+  · simp_all
+  · rfl
+
+theorem resolve_eq_resolveWith_some (a : Allow) (cwd b loc : Bytes) :
+    resolve a cwd (some b) loc = resolveWith a cwd (some b) loc := by
+  simp [resolve, effectiveBase]
+
+theorem resolve_eq_resolveWith (a : Allow) (ha : a ≠ .sandbox) (cwd : Bytes) (b : Option Bytes) (loc : Bytes) :
+    resolve a cwd b loc = resolveWith a cwd b loc := by
+  simp [resolve, effectiveBase, ha]
+
+/-- the access check of one constructed resource, as recorded in a trace event -/
+def Checked (a : Allow) (cwd : Bytes) (m : Mapper) : Event → Prop
+  | .opened b loc n =>
+    (resolveWith a cwd b (applyMapper m (strip loc))).decision = some .ok ∧
+      n = normalizeUrl cwd b (applyMapper m (strip loc))
+  | _ => True
+
+/-- EVERY FETCH IS CHECKED — for load trees of any depth and width, any mode, any uri mapper, any
+    file system: each resource that is fetched anywhere in the nested load was constructed for the
+    location normalised against its parent's directory and passed `access_control` under the ROOT's
+    `allow` mode (the mode is handed down unchanged). -/
+theorem every_fetch_checked (a : Allow) (cwd : Bytes) (m : Mapper) (readable : Norm → Bool)
+    (b : Option Bytes) (t : LoadTree) : ∀ e ∈ (loadNode a cwd m readable b t).1, Checked a cwd m e := by
+  refine load_forall a cwd m readable (Checked a cwd m) (fun _ => True) ?_ t b trivial
+  intro b loc _
+  refine ⟨fun h => ⟨⟨h, resolveWith_norm ..⟩, fun _ _ _ => trivial⟩, fun _ _ _ => trivial, trivial⟩
+
+/-- allow='none': no resource is fetched anywhere in a nested load, whatever the documents contain. -/
+theorem trace_none_opens_nothing (cwd : Bytes) (m : Mapper) (readable : Norm → Bool)
+    (b : Option Bytes) (t : LoadTree) :
+    ∀ e ∈ (loadNode .none cwd m readable b t).1, e.isOpened = false := by
+  refine load_forall .none cwd m readable (fun e => e.isOpened = false) (fun _ => True) ?_ t b trivial
+  intro b loc _
+  refine ⟨fun h => ?_, fun _ _ _ => rfl, rfl⟩
+  have := resolve_none_never_ok cwd b (applyMapper m (strip loc))
+  rw [resolve_eq_resolveWith .none (by decide)] at this
+  exact absurd h this
+
+/-- allow='remote': everything fetched in a nested load is a URL with a non-local scheme. -/
+theorem trace_remote_only_remote (cwd : Bytes) (hcwd : isAbsPath cwd = true) (m : Mapper)
+    (readable : Norm → Bool) (b : Option Bytes) (t : LoadTree) :
+    ∀ e ∈ (loadNode .remote cwd m readable b t).1, ∀ b' loc n, e = .opened b' loc n →
+      ∃ s nl j, n = .remote s nl j ∧ isLocalScheme s = false := by
+  refine load_forall .remote cwd m readable
+    (fun e => ∀ b' loc n, e = .opened b' loc n → ∃ s nl j, n = .remote s nl j ∧ isLocalScheme s = false)
+    (fun _ => True) ?_ t b trivial
+  intro b loc _
+  refine ⟨fun h => ⟨?_, fun _ _ _ => trivial⟩, fun _ _ _ _ _ _ he => (by cases he), fun _ _ _ he => (by cases he)⟩
+  intro b' loc' n he
+  cases he
+  have := resolve_remote_only_remote cwd b (applyMapper m (strip loc)) hcwd
+  rw [resolve_eq_resolveWith .remote (by decide)] at this
+  exact this h
+
+theorem resolveWith_local_only_files (a : Allow) (ha : a = .loc ∨ a = .sandbox) (cwd : Bytes)
+    (b : Option Bytes) (loc : Bytes) (h : (resolveWith a cwd b loc).decision = some .ok) :
+    ∃ p u, (resolveWith a cwd b loc).norm = .file p u := by
+  unfold resolveWith at h ⊢
+  cases hn : normalizeUrl cwd b loc with
+  | file p u => simp only [hn] at h ⊢; split <;> exact ⟨p, u, rfl⟩
+  | remote s n j => rcases ha with rfl | rfl <;> simp [hn] at h
+  | outOfScope => simp [hn] at h
+  | error => simp [hn] at h
+
+/-- allow='local' / 'sandbox': everything fetched in a nested load is a local file. -/
+theorem trace_local_only_files (a : Allow) (ha : a = .loc ∨ a = .sandbox) (cwd : Bytes) (m : Mapper)
+    (readable : Norm → Bool) (b : Option Bytes) (t : LoadTree) :
+    ∀ e ∈ (loadNode a cwd m readable b t).1, ∀ b' loc n, e = .opened b' loc n → ∃ p u, n = .file p u := by
+  refine load_forall a cwd m readable
+    (fun e => ∀ b' loc n, e = .opened b' loc n → ∃ p u, n = .file p u) (fun _ => True) ?_ t b trivial
+  intro b loc _
+  refine ⟨fun h => ⟨?_, fun _ _ _ => trivial⟩, fun _ _ _ _ _ _ he => (by cases he), fun _ _ _ he => (by cases he)⟩
+  intro b' loc' n he
+  cases he
+  exact resolveWith_local_only_files a ha cwd b _ h
+
+/-- SANDBOX, NESTED LOADS OF ANY DEPTH.  Root base `b0` (given, or derived from the main source)
+    normalises to the directory `d0`, which is a directory and not a document (`hdir`).  Then every
+    resource fetched anywhere in the load tree — children get `os.path.dirname(parent url)` as their
+    base, so the sandbox they are checked against changes at every hop — is a local file whose
+    decoded path has only real names as components and lies component-wise inside the ROOT
+    directory `d0`. -/
+theorem trace_sandbox_confined (cwd : Bytes) (hcwd : isAbsPath cwd = true) (m : Mapper)
+    (readable : Norm → Bool) (b0 d0 du0 : Bytes) (hb0 : normalizeUrl cwd none b0 = .file d0 du0)
+    (hdir : ∀ p u, comps p = comps d0 → readable (.file p u) = false) (t : LoadTree) :
+    ∀ e ∈ (loadNode .sandbox cwd m readable (some b0) t).1, ∀ b loc n, e = .opened b loc n →
+      ∃ p u, n = .file p u ∧ Under d0 p ∧ ∀ c ∈ comps p, CleanComp c := by
+  refine load_forall .sandbox cwd m readable
+    (fun e => ∀ b loc n, e = .opened b loc n → ∃ p u, n = .file p u ∧ Under d0 p ∧ ∀ c ∈ comps p, CleanComp c)
+    (fun b => ∃ b', b = some b' ∧ ∀ d du, normalizeUrl cwd none b' = .file d du → comps d0 <+: comps d)
+    ?_ t (some b0) ⟨b0, rfl, fun d du h => by rw [hb0] at h; cases h; exact List.prefix_refl _⟩
+  rintro _ loc ⟨b', rfl, hinv⟩
+  refine ⟨fun h => ?_, fun _ _ _ _ _ _ he => (by cases he), fun _ _ _ he => (by cases he)⟩
+  have hc := resolve_sandbox_confined cwd b' (applyMapper m (strip loc)) hcwd
+  rw [resolve_eq_resolveWith_some] at hc
+  obtain ⟨p, u, d, du, hn, hd, hund, hclean⟩ := hc h
+  have hd0p : comps d0 <+: comps p := List.IsPrefix.trans (hinv d du hd) hund
+  refine ⟨?_, ?_⟩
+  · intro b loc' n he
+    cases he
+    exact ⟨p, u, hn, hd0p, hclean⟩
+  · intro hr cb hcb
+    rw [hn] at hr hcb
+    simp only [childBase, Option.some.injEq] at hcb
+    subst hcb
+    refine ⟨_, rfl, ?_⟩
+    intro d' du' hd'
+    have hne : comps d0 ≠ comps p := by
+      intro e
+      have := hdir p u e.symm
+      rw [this] at hr; cases hr
+    have hn' : normalizeUrl cwd (some b') (applyMapper m (strip loc)) = .file p u := by
+      rw [← resolveWith_norm .sandbox]; exact hn
+    obtain ⟨j, hj, hp, hu⟩ := normalizeUrl_file_shape cwd (some b') _ p u hcwd hn'
+    subst hp; subst hu
+    exact childBase_confined cwd j hj (comps d0) hd0p hne d' du' hd'
+
+
+/-- The same for the ROOT resource, whose sandbox is the given `base_url` or, without one, the
+    directory of the main source itself (`effectiveBase`). -/
+theorem root_sandbox_confined (cwd : Bytes) (hcwd : isAbsPath cwd = true) (m : Mapper)
+    (readable : Norm → Bool) (base : Option Bytes) (loc : Bytes) (strict : Bool) (refs : List LoadTree)
+    (b0 d0 du0 : Bytes) (he : effectiveBase .sandbox cwd base loc = some (some b0))
+    (hb0 : normalizeUrl cwd none b0 = .file d0 du0)
+    (hdir : ∀ p u, comps p = comps d0 → readable (.file p u) = false) :
+    ∀ e ∈ (loadRoot .sandbox cwd m readable base (.node loc strict refs)).1, ∀ b l n, e = .opened b l n →
+      ∃ p u, n = .file p u ∧ Under d0 p ∧ ∀ c ∈ comps p, CleanComp c := by
+  simp only [loadRoot, he]
+  exact trace_sandbox_confined cwd hcwd m readable b0 d0 du0 hb0 hdir _
+
+/-- A denied location's content never influences the result: the trace of a reference that is not
+    admitted is the same whatever the document at that location refers to. -/
+theorem denied_content_unreached (a : Allow) (cwd : Bytes) (m : Mapper) (readable : Norm → Bool)
+    (b : Option Bytes) (loc : Bytes) (strict : Bool) (refs refs' : List LoadTree)
+    (h : (resolveWith a cwd b (applyMapper m (strip (sourceOf cwd b strict loc)))).decision ≠ some .ok) :
+    loadNode a cwd m readable b (.node loc strict refs) = loadNode a cwd m readable b (.node loc strict refs') := by
+  unfold loadNode
+  simp only
+  split
+  · rename_i hd; exact absurd hd h
+  · rfl
+  · rfl
+
+/-! non-vacuity: a three-level load in the sandbox `/r/s` -/
+
+/-- byte string of an ASCII literal (examples only) -/
+def bs (s : String) : Bytes := s.toList.map Char.toNat
+
+/-- example world: `/r/s/m`, `/r/s/sub/a`, `/r/s/b`, `/r/o/x` are documents -/
+def exDocs : List Bytes := [bs "file:///r/s/m", bs "file:///r/s/sub/a", bs "file:///r/s/b", bs "file:///r/o/x"]
+def exReadable (n : Norm) : Bool := match n.url? with | some u => exDocs.contains u | none => false
+/-- `m` includes `sub/a`, which imports `../../o/x` (outside) and includes `../b` -/
+def exTree : LoadTree :=
+  .node (bs "m") true [.node (bs "sub/a") true [.node (bs "../../o/x") false [], .node (bs "../b") true []]]
+
+/-- the hypotheses of `trace_sandbox_confined` are met and the trace is not trivial: two fetches,
+    then the outside import is skipped, then `../b` is refused because the sandbox of the children
+    of `sub/a` is `/r/s/sub` (the sandbox narrows at every hop), which aborts the load -/
+example : normalizeUrl (bs "/r/s") none (bs "/r/s") = .file (bs "/r/s") (bs "file:///r/s") ∧
+    (∀ u, exReadable (.file (bs "/r/s") u) = false ∨ u ≠ bs "file:///r/s") ∧
+    (loadNode .sandbox (bs "/r/s") [] exReadable (some (bs "/r/s")) exTree).1.map Event.isOpened
+      = [true, true, false, false] ∧
+    (loadNode .sandbox (bs "/r/s") [] exReadable (some (bs "/r/s")) exTree).2 = true ∧
+    (loadNode .loc (bs "/r/s") [] exReadable (some (bs "/r/s")) exTree).1.map Event.isOpened
+      = [true, true, true, true] ∧
+    (loadNode .none (bs "/r/s") [] exReadable (some (bs "/r/s")) exTree).1.map Event.isOpened = [false] := by
+  refine ⟨by decide +kernel, fun u => ?_, by decide +kernel, by decide +kernel, by decide +kernel, by decide +kernel⟩
+  by_cases h : u = bs "file:///r/s"
+  · subst h; left; decide +kernel
+  · right; exact h
+
+/-! ## remote URLs are never taken for local files -/
+
+/-- A string that starts with a syntactically valid non-local scheme and ':' — the shape of every
+    URL that `get_uri` / `urlunsplit` render for a non-local scheme (compared with the code on every
+    `render` case) — is NEVER classified as a local URL by `is_local_url`, whatever follows the colon:
+    'remote' mode never refuses it as local and the file branch of `access_control` is never taken
+    for it; and it IS classified remote unless it contains a line feed. -/
+theorem scheme_prefixed_class (s rest : Bytes) (hs : SchemeOK s) (hloc : isLocalScheme (s.map lower) = false) :
+    classify (s ++ 58 :: rest) ≠ .loc ∧
+      ((s ++ 58 :: rest).contains 10 = false → classify (s ++ 58 :: rest) = .remote) :=
+  XsVerif.Access.scheme_prefixed_class s rest hs hloc
+
+example : SchemeOK (bs "http") ∧ isLocalScheme ((bs "http").map lower) = false := by
+  refine ⟨⟨⟨104, bs "ttp", by decide, by decide⟩, by decide⟩, by decide⟩
+
+/-- FULL STATEMENT (false for the code): `remoteUrl cwd base loc = some r → classify r = .remote`,
+    i.e. every location that `normalize_url` renders as a non-local URL is refused by
+    `access_control` in the modes that admit local files only.
+    Counterexample (finding C12-F4, replayed on the real code by the `newline-remote-base` family):
+    the relative location `a%0Ab` joined to the remote base `http://h/d/` is rendered with a raw
+    line feed, is classified neither local nor remote, and `access_control` lets it through under
+    'local' and — the prefix test against the remote base succeeding — under 'sandbox'. -/
+theorem remote_render_counterexample :
+    remoteUrl (bs "/r") (some (bs "http://h/d/")) (bs "a%0Ab") = some (bs "http://h/d/a\nb") ∧
+    classify (bs "http://h/d/a\nb") = .neither ∧
+    accessControl .loc none (some (bs "http://h/d/a\nb")) = .ok ∧
+    accessControl .sandbox (some (bs "http://h/d/")) (some (bs "http://h/d/a\nb")) = .ok ∧
+    (resolveWith .loc (bs "/r") (some (bs "http://h/d/")) (bs "a%0Ab")).decision = some .blockedRemote := by
+  decide +kernel
+
+/-- PARTIAL (guard: the rendered URL contains no line feed): a rendered URL with a valid non-local
+    scheme is refused as remote by `access_control` in 'local' and 'sandbox' mode, whatever the base
+    — in particular also when it lies below a REMOTE sandbox base. -/
+theorem remote_render_partial (a : Allow) (ha : a = .loc ∨ a = .sandbox) (b : Option Bytes)
+    (s rest : Bytes) (hs : SchemeOK s) (hloc : isLocalScheme (s.map lower) = false)
+    (h10 : (s ++ 58 :: rest).contains 10 = false) :
+    accessControl a b (some (s ++ 58 :: rest)) = .blockedRemote :=
+  local_modes_block_remote a ha b _ ((XsVerif.Access.scheme_prefixed_class s rest hs hloc).2 h10)
+
+example : accessControl .sandbox (some (bs "http://h/d/")) (some (bs "http://h/d/x.xsd")) = .blockedRemote := by
+  decide +kernel
 
 /-! ## known defect of the call sites that pass no base URL (C12-F2 / C12-F3) -/
 
